@@ -4,7 +4,7 @@
      E|<name>|<0/1 wrapped>|<carrier go type>                                          an enum type
    compared on every correspondence case with the go/parser projection of the code the implementation emitted
    (the static tie: it does not need a document to see that a field changed its type). *)
-From Coq Require Import String Ascii.
+From Coq Require Import String Ascii DecimalString.
 From GJS Require Import Base Bounds IntSize Regex Schema GoType.
 
 Definition lit (s : string) : str := map (fun c => N.of_nat (nat_of_ascii c)) (list_ascii_of_string s).
@@ -18,6 +18,12 @@ Definition fmt_name (f : fmtk) : str :=
   match f with
   | FDateTime => lit "time.Time" | FDate => lit "types.SerializableDate" | FTime => lit "types.SerializableTime" | FIP => lit "netip.Addr"
   end.
+
+(* decimal numerals *)
+Definition dec_N (n : N) : str := lit (NilZero.string_of_uint (N.to_uint n)).
+Definition dec_Z (z : Z) : str := lit (NilZero.string_of_int (Z.to_int z)).
+Definition dec_nat (n : nat) : str := dec_N (N.of_nat n).
+Definition dec_Q (q : Q) : str := dec_Z (Qnum q) ++ lit "/" ++ dec_N (Npos (Qden q)).
 
 Section Render.
 Variable rn : str -> str.        (* the Go name of the declared type of a definition *)
@@ -69,6 +75,104 @@ Fixpoint decls (t : gty) : list str :=
       end
   | TNamed name u plan => [lit "N|" ++ name ++ sep ++ bit (has_plan plan) ++ sep ++ go_ty u] ++ decls u
   | TEnum name c w _ => [lit "E|" ++ name ++ sep ++ bit w ++ sep ++ go_ty c]
+  | _ => []
+  end.
+
+(* ---- the validator plan of a method, one line per emitted check, in the order of emission (json_formatter.generate):
+     W|<0/1>                      `raw` is declared
+     R|<json>                     required key
+     Y|<n>                        anyOf over n branch types
+     -                            the typed decode
+     N|<field>|<loops>|<json>     must be null, under <loops> range loops
+     D|<field>|<json>             default assignment
+     A|<field>|<loops>|<op>|<n>|<json>       array length (op "<": minItems, guarded by != nil; ">": maxItems)
+     P|<field>|<0/1 guard>                   pattern
+     L|<field>|<0/1>|<op>|<n>|<json>         string length
+     M|<field>|<0/1>|<i/f>|<q>|<json>        multipleOf (i: `%`, f: math.Mod)
+     B|<field>|<0/1>|<i/f>|<comparison>|<q>|<message sign>|<json>    a bound: reject when  q <comparison> x
+     X                            the additional-properties block
+   compared with the same lines read off the bodies of the emitted UnmarshalJSON and UnmarshalYAML. ---- *)
+(* what a line keeps of a validator (everything but the default literal and the text of the pattern); Proofs/PlanP.v shows that the
+   behaviour of every check is a function of it *)
+Inductive vsig :=
+| SReq (j : str)
+| SAny (n : nat)
+| SNull (f j : str) (depth : nat)
+| SDef (f j : str)
+| SArr (f j : str) (depth mn mx : nat)
+| SStr (f j : str) (nillable : bool) (mn mx : nat) (has_pattern : bool)
+| SNum (f j : str) (nillable rnd : bool) (mult : option Q) (up lo : option Q * bool).
+Definition vsig_of (v : validator) : vsig :=
+  match v with
+  | VRequired j => SReq j
+  | VAnyOf bs => SAny (length bs)
+  | VNullType f j d => SNull f j d
+  | VDefault f j _ _ => SDef f j
+  | VArray f j d mn mx => SArr f j d mn mx
+  | VString f j n mn mx p => SStr f j n mn mx (match p with Some _ => true | None => false end)
+  | VNumeric f j n rnd mult b =>
+      SNum f j n rnd (option_map (value_of rnd) mult)
+           (trunc_opt rnd (norm_max (b_max b) (b_exmax b))) (trunc_opt rnd (norm_min (b_min b) (b_exmin b)))
+  end.
+
+Definition kind_of (rnd : bool) : str := if rnd then lit "i" else lit "f".
+Definition bound_line (fname jname : str) (nillable rnd : bool) (s : string) (r : option Q * bool) : list str :=
+  match r with
+  | (None, _) => []
+  | (Some q, ex) =>
+      [lit "B|" ++ fname ++ sep ++ bit nillable ++ sep ++ kind_of rnd ++ sep ++
+       (if ex then lit s ++ lit "=" else lit s) ++ sep ++ dec_Q q ++ sep ++ (if ex then lit s else lit s ++ lit "=") ++ sep ++ jname]
+  end.
+Definition sline (v : vsig) : list str :=
+  match v with
+  | SReq j => [lit "R|" ++ j]
+  | SAny n => [lit "Y|" ++ dec_nat n]
+  | SNull fname j depth => [lit "N|" ++ fname ++ sep ++ dec_nat depth ++ sep ++ j]
+  | SDef fname j => [lit "D|" ++ fname ++ sep ++ j]
+  | SArr fname j depth mn mx =>
+      (if Nat.eqb mn 0 && Nat.eqb mx 0 then [] else
+       (if Nat.eqb mn 0 then [] else [lit "A|" ++ fname ++ sep ++ dec_nat (pred depth) ++ sep ++ lit "<" ++ sep ++ dec_nat mn ++ sep ++ j]) ++
+       (if Nat.eqb mx 0 then [] else [lit "A|" ++ fname ++ sep ++ dec_nat (pred depth) ++ sep ++ lit ">" ++ sep ++ dec_nat mx ++ sep ++ j]))
+  | SStr fname j nillable mn mx p =>
+      (if p then [lit "P|" ++ fname ++ sep ++ bit nillable] else []) ++
+      (if Nat.eqb mn 0 then [] else [lit "L|" ++ fname ++ sep ++ bit nillable ++ sep ++ lit "<" ++ sep ++ dec_nat mn ++ sep ++ j]) ++
+      (if Nat.eqb mx 0 then [] else [lit "L|" ++ fname ++ sep ++ bit nillable ++ sep ++ lit ">" ++ sep ++ dec_nat mx ++ sep ++ j])
+  | SNum fname j nillable rnd mult up lo =>
+      (match mult with
+       | Some m => [lit "M|" ++ fname ++ sep ++ bit nillable ++ sep ++ kind_of rnd ++ sep ++ dec_Q m ++ sep ++ j]
+       | None => []
+       end) ++
+      bound_line fname j nillable rnd "<" up ++ bound_line fname j nillable rnd ">" lo
+  end.
+Definition vline (v : validator) : list str := sline (vsig_of v).
+Definition plan_lines (fs : option (list field)) (vs : list validator) : list str :=
+  [lit "W|" ++ bit (existsb v_before vs || existsb v_raw_after vs)] ++
+  flat_map vline (filter v_before vs) ++ [lit "-"] ++
+  flat_map vline (filter (fun v => negb (v_before v)) vs) ++
+  match fs with Some fl => if existsb f_addl fl then [lit "X"] else [] | None => [] end.
+
+(* the plans of every declared type with a method reachable in the tree: a header line T|<name>, then its lines *)
+Fixpoint plans (t : gty) : list str :=
+  match t with
+  | TPtr u | TSlice _ u | TMap u => plans u
+  | TStruct name fs plan =>
+      (match name, plan with
+       | _ :: _, Some vs => (lit "T|" ++ name) :: plan_lines (Some fs) vs
+       | _, _ => []
+       end) ++
+      (fix go (fs : list field) : list str := match fs with [] => [] | mkField _ _ _ ty _ _ :: r => plans ty ++ go r end) fs ++
+      match plan with
+      | Some vs =>
+          (fix gov (vs : list validator) : list str :=
+             match vs with
+             | [] => []
+             | VAnyOf bs :: r => (fix gob (bs : list gty) : list str := match bs with [] => [] | b :: r' => plans b ++ gob r' end) bs ++ gov r
+             | _ :: r => gov r
+             end) vs
+      | None => []
+      end
+  | TNamed name u plan =>
+      (match plan with Some vs => (lit "T|" ++ name) :: plan_lines None vs | None => [] end) ++ plans u
   | _ => []
   end.
 End Render.
